@@ -819,8 +819,30 @@ def c04(W, replay=None):
     if not replay:
         design_mc(W, "c04-design", ["ExchangeBound", "TokensFromOwnLogin"], Kinds='{"app","callback"}', MaxCode=3 if W.tier == "thorough" else 2)
         scen = family(W, "C04") + attacker_family(W, 600 if W.tier == "thorough" else 150) + parallel_family(W, 400 if W.tier == "thorough" else 40)
-        scen += family(W, "C18", "quick") + same_client_family(W) + discovery_family(W) + dup_chain_family(W) + shared_callback_family(W) + decoy_family(W)
+        scen += family(W, "C18", "quick") + same_client_family(W) + discovery_family(W) + dup_chain_family(W) + shared_callback_family(W) + decoy_family(W) + secret_rotation_family(W)
     return sys_pipeline("C04", W, scen, None, ASSUME_SYS + ["the simulated token endpoint logs exactly what it was sent and is strict (RFC 6749/7636)"], replay=replay)
+
+
+def c05_fault_sweep(fam):
+    """The request of every C05 family scenario (default cookie prefix) once more with one store call failing: a store error,
+    or (Redis) a failing first / second Redis command of that call. No new session may be handed out over an undestroyed old one."""
+    preplen = {"absent": 0, "stale": 2, "forged": 0, "pending": 2, "authenticated": 1, "otherBrowser": 1}
+    out = []
+    for sc in fam:
+        _, pres, kind, prefix, store = sc["id"].split("/")
+        if prefix != "" or kind == "callback":
+            continue
+        j = preplen[pres]
+        for gate in range(0, 4):
+            for fault in (("before", "cmd1", "cmd2") if store == "redis" else ("before",)):
+                v = json.loads(json.dumps(sc))
+                v["id"] = sc["id"] + "/fault/g%d-%s" % (gate, fault)
+                v["steps"][j]["dirs"] = {str(gate): {"fault": fault}}
+                for st in v["steps"]:
+                    st.pop("expect", None)
+                v["tags"] = list(v.get("tags", [])) + ["faults"]
+                out.append(v)
+    return out
 
 
 def c05(W, replay=None):
@@ -828,7 +850,8 @@ def c05(W, replay=None):
     scen = []
     if not replay:
         design_mc(W, "c05-design", ["TokensOnlyUnderIssued"])
-        scen = family(W, "C05") + attacker_family(W, 400 if W.tier == "thorough" else 80) + decoy_family(W) + parallel_family(W, 200 if W.tier == "thorough" else 20)
+        fam = family(W, "C05")
+        scen = fam + c05_fault_sweep(fam) + replica_family(W) + attacker_family(W, 400 if W.tier == "thorough" else 80) + decoy_family(W) + parallel_family(W, 200 if W.tier == "thorough" else 20)
         if W.tier == "thorough":
             scen += random_histories(W, 500)
     return sys_pipeline("C05", W, scen, None, ASSUME_SYS, replay=replay)
